@@ -751,6 +751,8 @@ def delete(E, t):
 # ---------------------------------------------------------------- exceptions
 def make_exception(E, node):
     """raise X(...) / raise X / raise e -> (class name, V)"""
+    if isinstance(node, ast.Call) and isinstance(node.func, ast.Attribute) and node.func.attr == "with_traceback" and isinstance(node.func.value, ast.Call):
+        node = node.func.value  # X(...).with_traceback(tb): the same exception object
     if isinstance(node, ast.Call):
         cname = dotted(node.func)
         if cname is None:
